@@ -49,6 +49,10 @@ package revocation
 // fallback merge (C11): OCSP server results first, then the CRL ones
 //@   assert after call append#0: [fallback-order] len(result) == len(ocspResult.ServerResults) + len(serverResult.ServerResults) && (forall k :: 0 <= k && k < len(ocspResult.ServerResults) ==> result[k] == ocspResult.ServerResults[k]) && (forall k :: 0 <= k && k < len(serverResult.ServerResults) ==> result[len(ocspResult.ServerResults) + k] == serverResult.ServerResults[k])
 // the CRL check of the fallback happens exactly when OCSP ended Unknown and the certificate names distribution points
+// stmt C12: each result describes the certificate at its position, checked against the next certificate as issuer
+//@   assert before call ocsp.CertCheckStatus#0: [ocsp-args] arg1 == cert && arg1 == certChain[i] && arg2 == certChain[i+1] && arg3.SigningTime == validateContextOpts.AuthenticSigningTime
+//@   assert before call crl.CertCheckStatus#0: [fallback-args] arg1 == cert && arg1 == certChain[i] && arg2 == certChain[i+1] && arg3.SigningTime == validateContextOpts.AuthenticSigningTime
+//@   assert before call crl.CertCheckStatus#1: [crl-args] arg1 == cert && arg1 == certChain[i] && arg2 == certChain[i+1] && arg3.SigningTime == validateContextOpts.AuthenticSigningTime
 //@   assert before call crl.CertCheckStatus#0: [fallback-guard] ocspResult != nil && ocspResult.Result == result.ResultUnknown && crl.Supported$(cert) && ocsp.Supported$(cert)
 //@   assert before call crl.CertCheckStatus#1: [crl-only-guard] !ocsp.Supported$(cert) && crl.Supported$(cert)
 //@   loop 0
